@@ -70,7 +70,8 @@ def frame_class(cls):
         if lab == "Err":
             sub = cls.get(chain + ("Err",))
             return "Err:" + sub if sub else "Err"
-        chain = chain + ("Ok",)
+        # the payload may have been reached by an explicit `Ok(x) =>` arm or, after an explicit test, through `?`
+        chain = chain + ("Ok",) if cls.get(chain + ("Ok",)) is not None or cls.get(chain + ("?",)) is None else chain + ("?",)
         lab = cls.get(chain)
     elif lab is None and cls.get(chain + ("?",)) is not None:
         chain = chain + ("?",)
